@@ -184,11 +184,17 @@ func wellFormed6(r *rand.Rand, ownDUID dhcpv6.DUID) ([]byte, string) {
 	m := &dhcpv6.Message{MessageType: types[r.Intn(len(types))]}
 	r.Read(m.TransactionID[:])
 	kind := "t" + strconv.Itoa(int(m.MessageType))
-	if r.Intn(8) != 0 {
+	switch x := r.Intn(10); {
+	case x == 0:
+		kind += "-nocid"
+	case x == 1:
+		// client identifiers a real client would not build but the codec accepts: a DUID-LL without address, opaque ones of 2..5 bytes
+		raw := [][]byte{{0, 3, 0, 1}, {0, 3, 0, 1, 0x02}, {0x12, 0x34}, {0xff, 0xff, 0x01}, {0, 2, 0, 0, 0x7e}}[r.Intn(5)]
+		m.AddOption(&dhcpv6.OptionGeneric{OptionCode: dhcpv6.OptionClientID, OptionData: raw})
+		kind += "-shortcid"
+	default:
 		mac := srvMacs[r.Intn(len(srvMacs))]
 		m.AddOption(dhcpv6.OptClientID(&dhcpv6.DUIDLL{HWType: 1, LinkLayerAddr: mac}))
-	} else {
-		kind += "-nocid"
 	}
 	if m.MessageType == 1 && r.Intn(3) == 0 {
 		m.AddOption(&dhcpv6.OptionGeneric{OptionCode: dhcpv6.OptionRapidCommit})
